@@ -287,7 +287,8 @@ PROPS['C07'] = dict(
                "observation messages is taken at message level. Axioms: none.",
 )
 PROPS['C09'] = dict(
-    level='proof', projections=[dict(name='mercreport', spec_index=2, n_quick=250, n_thorough=3000)], rule=MERC_RULE,
+    level='proof', projections=[dict(name='mercreport', spec_index=2, n_quick=250, n_thorough=3000),
+                                dict(name='mercobserve', spec_index=1, n_quick=800, n_thorough=20000)], rule=MERC_RULE,
     explanation="Theorems C09_* prove: with a previous report the start is exactly one past its end without wrap (B2) and not after the new "
                 "end; over any threaded history the windows of consecutive emitted reports are adjacent and disjoint; declining carries no "
                 "fields. The bootstrap start (one past the greatest value with f+1 votes, or the timestamp when negative; overflow repaired, "
